@@ -22,7 +22,7 @@ BASE: dict[str, Any] = {
     "e": "",
     "arr": [1, 2, 3],
     "strs": ["b", "a", "c"],
-    "empty": [],
+    "earr": [],
     "mixed": [None, False, 0, "", "x"],
     "nils": [None, 0],
     "falses": [False, ""],
@@ -56,13 +56,13 @@ SCALARS = [
     "user.tags.first", "user.tags[1]", "idx", "key", "h. a. b. c", "h[ 'a' ].b",
     "objs.first.v", "objs.last.k", "h.list.size",
 ]
-ARRAYS = ["arr", "strs", "objs", "h.list", "user.tags", "empty", "mixed", "nils", "falses"]
+ARRAYS = ["arr", "strs", "objs", "h.list", "user.tags", "earr", "mixed", "nils", "falses"]
 NONEMPTY = ["arr", "strs", "objs", "h.list", "user.tags", "mixed", "nils", "falses"]
 HASHES = ["h", "user", "h.a", "h.a.b", "objs[0]"]
 # expressions that can never resolve -------------------------------------------------------
 MISSING = [
     "nosuch", "nosuch.x.y", "arr[9]", "arr[-9]", "h.zz", "h.a.zz.c", "h[nosuch]",
-    "arr[nosuch]", "s.zz", "n.size", "empty.first", "empty.last", "nl.x", "h.list[5]",
+    "arr[nosuch]", "s.zz", "n.size", "earr.first", "earr.last", "nl.x", "h.list[5]",
     "objs[7].k", "user['nope']", "h.last", "n.first", "arr['x']", "f.x",
 ]
 
@@ -193,6 +193,22 @@ STMTS: list[tuple[str, str]] = [
     ("!assign-prop", "{% assign v = {P} %}{{ v.x }}"),
     ("assign-for", "{% assign v = {P} %}{% for i in v %}{{ i }}{% endfor %}"),
     ("assign-filter-arg", "{% assign v = {P} %}{{ 'x' | append: v }}"),
+    ("array-literal-contains", "{% assign v = {P}, {Q} %}{% if v contains nil %}T{% else %}F{% endif %}"),
+    ("array-literal-contains-false", "{% assign v = {P}, 1 %}{% if v contains false %}T{% else %}F{% endif %}"),
+    ("array-literal-in", "{% assign v = {P}, {Q} %}{% if {R} in v %}T{% else %}F{% endif %}"),
+    ("array-literal-compact", "{% assign v = {P}, {Q}, 1 %}{{ v | compact | size }}"),
+    ("array-literal-uniq", "{% assign v = {P}, {Q}, 1 %}{{ v | uniq | size }}"),
+    ("array-literal-sort", "{% assign v = {P}, 'b', 'a' %}{{ v | sort | size }}"),
+    ("array-literal-first", "{% assign v = {P}, 1 %}{{ v | first | default: 'd' }}{{ v | last }}{{ v.size }}"),
+    ("array-literal-json", "{% assign v = {P}, 1 %}{{ v | json }}"),
+    ("array-literal-sum", "{% assign v = {P}, 1 %}{{ v | sum }}"),
+    ("array-literal-where", "{% assign v = {P}, {H} %}{{ v | where: 'k' | size }}{{ v | map: 'k' | join: ',' }}"),
+    ("array-literal-find", "{% assign v = {P}, {H} %}{{ v | find: 'k', 'v' | size }}{{ v | has: 'k' }}"),
+    ("array-literal-eq", "{% assign v = {P}, 1 %}{% assign w = {Q}, 1 %}{% if v == w %}T{% else %}F{% endif %}"),
+    ("array-literal-for-if", "{% for x in {P}, {Q}, f %}{% if x %}y{% else %}n{% endif %}{% endfor %}"),
+    ("array-literal-concat", "{% assign v = {P}, 1 %}{{ {A} | concat: v | size }}"),
+    ("hash-eq", "{% if {H} == {P} %}T{% else %}F{% endif %}"),
+    ("array-eq", "{% if {A} == {P} %}T{% else %}F{% endif %}{% if {P} != {A} %}T{% else %}F{% endif %}"),
     ("capture", "{% capture c %}{{ {P} }}{% endcapture %}{{ c }}"),
     ("capture-default", "{% capture c %}{{ {P} | default: 'd' }}{% endcapture %}[{{ c }}]"),
     ("include-with", "{% include 'p_use' with {P} as x %}"),
@@ -330,7 +346,7 @@ def base_data() -> dict[str, Any]:
 # tested for truthiness and equality without raising") the named policies must not raise.
 # ---------------------------------------------------------------------------------------
 SIMPLE_MISSING = ["nosuch", "nosuch.x.y", "arr[9]", "arr[-9]", "h.zz", "h.a.zz.c", "s.zz",
-                  "empty.first", "nl.x", "h.list[5]", "objs[7].k", "user['nope']", "n.size"]
+                  "earr.first", "nl.x", "h.list[5]", "objs[7].k", "user['nope']", "n.size"]
 
 NOUSE: list[tuple[str, str]] = [
     ("nouse:assign", "{% assign v = {M} %}ok"),
@@ -363,7 +379,7 @@ NOUSE: list[tuple[str, str]] = [
     ("nouse:default-template-string", "{{ 'x${{M} | default: 1}y' }}"),
     ("nouse:default-liquid-tag", "{% liquid\necho {M} | default: 'z' %}"),
     ("nouse:for-else-unreached", "{% for x in arr %}{{ x }}{% else %}{{ {M} }}{% endfor %}"),
-    ("nouse:for-empty-body", "{% for x in empty %}{{ {M} }}{% endfor %}ok"),
+    ("nouse:for-empty-body", "{% for x in earr %}{{ {M} }}{% endfor %}ok"),
     ("nouse:case-unmatched", "{% case 1 %}{% when 2 %}{{ {M} }}{% else %}e{% endcase %}"),
     ("nouse:comment", "{% comment %}{{ {M} }}{% endcomment %}{# {{ {M} }} #}{% raw %}{{ {M} }}{% endraw %}"),
 ]
@@ -446,6 +462,14 @@ def sweep() -> list[tuple[str, str, tuple[str, ...]]]:
             seen.add(text)
             out.append((kind, text, nouse))
 
+    # no-use forms first: an identical text from the general forms must not shadow them
+    for kind, tpl in NOUSE:
+        for p in SIMPLE_MISSING:
+            add(kind, fill_fixed(tpl.replace("${{M}", "${" + p), p, "arr"), ("strict", "falsy"))
+    for kind, tpl in FALSY_NOUSE:
+        for p in SIMPLE_MISSING:
+            for q in ("n", "nl", "f"):
+                add(kind, fill_fixed(tpl.replace("{P}", q), p, "arr"), ("falsy",))
     for kind, tpl in STMTS:
         arrays = ARRAYS if ("{A}" in tpl and "{P}" in tpl) else ["arr"]
         if "{P}" not in tpl:
@@ -460,11 +484,4 @@ def sweep() -> list[tuple[str, str, tuple[str, ...]]]:
             for p in ("nosuch", "arr[9]", "h.zz"):
                 add(kind, fill_fixed(tpl, "s", "arr", q=p))
                 add(kind, fill_fixed(tpl, "nl", "mixed", q=p))
-    for kind, tpl in NOUSE:
-        for p in SIMPLE_MISSING:
-            add(kind, fill_fixed(tpl.replace("${{M}", "${" + p), p, "arr"), ("strict", "falsy"))
-    for kind, tpl in FALSY_NOUSE:
-        for p in SIMPLE_MISSING:
-            for q in ("n", "nl", "f"):
-                add(kind, fill_fixed(tpl.replace("{P}", q), p, "arr"), ("falsy",))
     return out
